@@ -66,6 +66,39 @@ def audit_emitted(ctx):
     ctx.cov['barrier_litmus_functions'] = 7
     return bad
 
+def audit_operand_shapes(ctx):
+    """the full-barrier operations must be full barriers for EVERY operand, also compile-time constants that make the memory update a no-op (adding 0, exchanging
+    equal values): generated litmus functions over op x width x operand shape, compiled at -O2 in the default, pre-C11 and builtins configurations; each body must
+    contain a fencing instruction (locked RMW, xchg with memory, mfence) with a plain load of *flag before and after it"""
+    src = os.path.join(BUILD, 'ua_barrier_gen.c'); fns = []
+    with open(src, 'w') as f:
+        f.write('#include <urcu/uatomic.h>\n')
+        for ty, tn in (('long', 'l'), ('int', 'i'), ('short', 's'), ('signed char', 'c')):
+            for kn, k in (('zero', '0'), ('one', '1'), ('minus1', '-1'), ('var', 'v')):
+                for op, call in (('add_return', 'uatomic_add_return(w, (%s) %s)' % (ty, k)), ('sub_return', 'uatomic_sub_return(w, (%s) %s)' % (ty, k)),
+                                 ('xchg', 'uatomic_xchg(w, (%s) %s)' % (ty, k)), ('cmpxchg', 'uatomic_cmpxchg(w, (%s) %s, (%s) %s)' % (ty, k, ty, k))):
+                    fn = 'g_%s_%s_%s' % (op, tn, kn); fns.append(fn)
+                    f.write('int %s(int *flag, %s *w, %s v){ int a = *flag; (void) %s; int b = *flag; return a + 2*b; }\n' % (fn, ty, ty, call))
+    bad = []; n = 0
+    for tag, extra in (('default', []), ('-std=gnu99', ['-std=gnu99']), ('builtins', ['-DCONFIG_RCU_USE_ATOMIC_BUILTINS'])):
+        out = os.path.join(BUILD, 'ua_barrier_gen_%s.s' % tag.strip('-').replace('=', ''))
+        rc, so, se = sh(['gcc', '-O2', '-S'] + extra + ['-o', out] + INC + [src])
+        if rc: bad.append('generated barrier litmus does not compile (%s): %s' % (tag, se[-300:])); continue
+        asm = open(out).read()
+        for fn in fns:
+            m = re.search(r'^%s:\n(.*?)\n\s*ret' % fn, asm, flags=re.S | re.M)
+            body = m.group(1) if m else ''
+            mm = re.search(r'lock;?\s*\n?\s*\w+|xchg\w*\s+[^\n]*\(|mfence', body)
+            n += 1
+            if not mm:
+                if len(bad) < 4: bad.append('%s (%s build): no fencing instruction emitted - the operation is not a memory barrier for this operand (op_width_operand: %s)' % (fn, tag, fn[2:]))
+                continue
+            ld = r'\(%rdi\)\s*,'
+            if not re.search(ld, body[:mm.start()]) or not re.search(ld, body[mm.end():]):
+                if len(bad) < 4: bad.append('%s (%s build): the plain loads of *flag around the operation were merged or moved (not a compiler barrier)' % (fn, tag))
+    ctx.cov['barrier_operand_shape_functions'] = n
+    return bad
+
 def run(ctx):
     ctx.cov['source_hash'] = source_hash(FILES)
     prove(ctx)
@@ -98,6 +131,8 @@ def run(ctx):
     ctx.cov['distinct_nontrivial'] = len(set(dist))  # distinct (op, width, signedness) classes exercised
     ctx.cov['input_distribution'] = {'op_width_signed_classes': len(dist), 'min_per_class': min(dist.values()) if dist else 0, 'builds': [v[0] for v in variants]}
     for b in audit_header(ctx): ctx.fail('translator', 'asm audit of include/urcu/uatomic/x86.h', b)
+    for b in audit_operand_shapes(ctx):
+        ctx.fail('oracle', 'full barrier for every operand shape (emitted code)', b, concrete={'program': 'build/ua_barrier_gen.c (generated by tools/props/C20.py audit_operand_shapes) compiled with gcc -O2', 'finding': b})
     for b in audit_emitted(ctx):
         ctx.fail('oracle', 'compiler-barrier litmus (emitted code)', b, concrete={'program': 'harness/seqdiff/ua_barrier.c compiled with gcc -O2', 'finding': b})
     # real threads
